@@ -8,8 +8,9 @@
 (*       in byte order, so a complete trace of 256 events is exhaustive.      *)
 (*  in   an input byte string: TLC steps BOTH automata over the logged bytes  *)
 (*       (JsonScan!RunStd / RunSimple) and keeps the reference semi-indexes.  *)
-(*  out  what one engine produced for the last input: final state, one-bit    *)
-(*       positions and word counts of its IB and BP vectors.  There is no     *)
+(*  out  what one engine produced for the last input: final state, its IB    *)
+(*       and BP word vectors (each 64-bit word as four 16-bit integers, low   *)
+(*       quarter first) and their word counts.  There is no     *)
 (*       engine-dependent clause: eng is logged but the expected value is     *)
 (*       the reference run -- that IS "does not depend on the engine".        *)
 (*       eng = "index" are the IB/BP held by JsonIndex / SimpleJsonIndex      *)
@@ -17,9 +18,19 @@
 (*       the reference index of its input" -- same IB words, same BP words.   *)
 EXTENDS TraceBase, JsonScan
 
-VARIABLES l, es, em, ntab
+\* Reference semi-indexes of every recorded input, computed once per "in" event.  They are
+\* constants of the recorded trace, so the state is just <<l, d, ntab>> (d = line of the
+\* current input).
+InIdx == {i \in 1..NRec : Rec[i].e = "in"}
 
-vars == <<l, es, em, ntab>>
+\* 16-bit words, padded to whole 64-bit words as the implementation returns them
+Words64(r) == [r EXCEPT !.ib = PadTo(@, 4 * WordsFor(r.n)), !.bp = PadTo(@, 4 * WordsFor(r.bpn))]
+
+Ref == [i \in InIdx |-> [std |-> Words64(RunStdP(Rec[i].bytes, 16)), simple |-> Words64(RunSimpleP(Rec[i].bytes, 16))]]
+
+VARIABLES l, d, ntab
+
+vars == <<l, d, ntab>>
 
 Tab(e) ==
   /\ e.e = "tab"
@@ -32,20 +43,20 @@ Tab(e) ==
           /\ e.xp[s + 1] = t.phi
   /\ e.r = StdStep(InJson, e.b).s
   /\ ntab' = ntab + 1
-  /\ UNCHANGED <<es, em>>
+  /\ UNCHANGED d
 
 In(e) ==
   /\ e.e = "in"
-  /\ es' = RunStd(e.bytes)
-  /\ em' = RunSimple(e.bytes)
-  /\ e.n = es'.n /\ e.n = em'.n
+  /\ d' = l
+  /\ e.n = Ref[l].std.n /\ e.n = Ref[l].simple.n
   /\ UNCHANGED ntab
 
 Out(e) ==
   /\ e.e = "out"
-  /\ LET x == IF e.enc = "std" THEN es ELSE em
+  /\ d > 0
+  /\ LET x == IF e.enc = "std" THEN Ref[d].std ELSE Ref[d].simple
      IN /\ e.st = (IF e.eng = "index" THEN -1 ELSE x.s)
-        /\ e.ib = x.ib
+        /\ e.ib = x.ib                      \* all 16-bit quarters of all 64-bit words
         /\ e.ibw = WordsFor(x.n)
         /\ e.bp = x.bp
         /\ e.bpw = WordsFor(x.bpn)
@@ -53,9 +64,9 @@ Out(e) ==
         \* (two bits per structural); engines return words only (bpl = -1)
         /\ (e.eng = "index" /\ e.enc = "simple" => e.bpl = x.bpn)
         /\ (e.eng # "index" => e.bpl = -1)
-  /\ UNCHANGED <<es, em, ntab>>
+  /\ UNCHANGED <<d, ntab>>
 
-Init == l = 1 /\ es = Acc0(InJson) /\ em = Acc0(InJson) /\ ntab = 0
+Init == l = 1 /\ d = 0 /\ ntab = 0
 
 Next == /\ l <= NRec
         /\ LET e == Rec[l] IN Tab(e) \/ In(e) \/ Out(e)
